@@ -9,15 +9,15 @@ evaluate to RELATED values and related states. Generic in the closure-body relat
 -/
 namespace DarkluaModel.Sem.HeapU
 
-structure EnvOK {N : NumOps} (β : Inj N) (D : List DName) (env env' : Env N) : Prop where
+structure EnvOK {N : NumOps} (cx : Cx) (β : Inj N) (D : List DName) (env env' : Env N) : Prop where
   va : VsRel β env.varargs env'.varargs
-  loc : EnvRel β D env.locals env'.locals
+  loc : EnvRel cx β D env.locals env'.locals
 
-theorem EnvOK.mono {N : NumOps} {β β' : Inj N} {D} {env env' : Env N} (h : EnvOK β D env env')
-    (hβ : β.le β') : EnvOK β' D env env' := ⟨h.va.mono hβ, h.loc.mono hβ⟩
+theorem EnvOK.mono {N : NumOps} {cx : Cx} {β β' : Inj N} {D} {env env' : Env N} (h : EnvOK cx β D env env')
+    (hβ : β.le β') : EnvOK cx β' D env env' := ⟨h.va.mono hβ, h.loc.mono hβ⟩
 
-theorem EnvOK.weaken {N : NumOps} {β : Inj N} {D D'} {env env' : Env N} (h : EnvOK β D env env')
-    (hD : ∀ x ∈ D, x ∈ D') : EnvOK β D' env env' := ⟨h.va, h.loc.weaken hD⟩
+theorem EnvOK.weaken {N : NumOps} {cx : Cx} {β : Inj N} {D D'} {env env' : Env N} (h : EnvOK cx β D env env')
+    (hD : DSub D D') : EnvOK cx β D' env env' := ⟨h.va, h.loc.weaken hD⟩
 
 /-- the parameters of an evaluation respect the relation -/
 structure POK {N : NumOps} (Q : QRel) (cx : Cx) (call : CallFn N) (ρ : ExtOracle N) (k : Nat) : Prop where
@@ -33,31 +33,31 @@ def ATargets {N : NumOps} (D : List DName) : ARel N (List (Target N)) :=
 
 def SoundE (Q : QRel) (cx : Cx) (D : List DName) (x y : Expr) : Prop :=
   ∀ (N : NumOps) (call : CallFn N) (ρ : ExtOracle N) (k : Nat) (env env' : Env N) (σ σ' : State N) (β : Inj N),
-    POK Q cx call ρ k → SRel Q cx β σ σ' → EnvOK β D env env' →
+    POK Q cx call ρ k → SRel Q cx β σ σ' → EnvOK cx β D env env' →
       RRel Q cx β AVs (evalE call ρ k env x σ) (evalE call ρ k env' y σ')
 def SoundT (Q : QRel) (cx : Cx) (D : List DName) (x y : Expr) : Prop :=
   ∀ (N : NumOps) (call : CallFn N) (ρ : ExtOracle N) (k : Nat) (env env' : Env N) (σ σ' : State N) (β : Inj N),
-    POK Q cx call ρ k → SRel Q cx β σ σ' → EnvOK β D env env' →
+    POK Q cx call ρ k → SRel Q cx β σ σ' → EnvOK cx β D env env' →
       RRel Q cx β (ATarget D) (evalTarget call ρ k env x σ) (evalTarget call ρ k env' y σ')
 def SoundEs (Q : QRel) (cx : Cx) (D : List DName) (x y : List Expr) : Prop :=
   ∀ (N : NumOps) (call : CallFn N) (ρ : ExtOracle N) (k : Nat) (env env' : Env N) (σ σ' : State N) (β : Inj N),
-    POK Q cx call ρ k → SRel Q cx β σ σ' → EnvOK β D env env' →
+    POK Q cx call ρ k → SRel Q cx β σ σ' → EnvOK cx β D env env' →
       RRel Q cx β AVs (evalEs call ρ k env x σ) (evalEs call ρ k env' y σ')
 def SoundTs (Q : QRel) (cx : Cx) (D : List DName) (x y : List Expr) : Prop :=
   ∀ (N : NumOps) (call : CallFn N) (ρ : ExtOracle N) (k : Nat) (env env' : Env N) (σ σ' : State N) (β : Inj N),
-    POK Q cx call ρ k → SRel Q cx β σ σ' → EnvOK β D env env' →
+    POK Q cx call ρ k → SRel Q cx β σ σ' → EnvOK cx β D env env' →
       RRel Q cx β (ATargets D) (evalTargets call ρ k env x σ) (evalTargets call ρ k env' y σ')
 def SoundElifs (Q : QRel) (cx : Cx) (D : List DName) (x y : List (Expr × Expr)) : Prop :=
   ∀ (N : NumOps) (call : CallFn N) (ρ : ExtOracle N) (k : Nat) (env env' : Env N) (σ σ' : State N) (β : Inj N),
-    POK Q cx call ρ k → SRel Q cx β σ σ' → EnvOK β D env env' →
+    POK Q cx call ρ k → SRel Q cx β σ σ' → EnvOK cx β D env env' →
       RRel Q cx β AOVs (evalElifs call ρ k env x σ) (evalElifs call ρ k env' y σ')
 def SoundEntries (Q : QRel) (cx : Cx) (D : List DName) (x y : List Entry) : Prop :=
   ∀ (N : NumOps) (call : CallFn N) (ρ : ExtOracle N) (k : Nat) (env env' : Env N) (t t' i : Nat) (σ σ' : State N)
-    (β : Inj N), POK Q cx call ρ k → SRel Q cx β σ σ' → EnvOK β D env env' → β.t t t' →
+    (β : Inj N), POK Q cx call ρ k → SRel Q cx β σ σ' → EnvOK cx β D env env' → β.t t t' →
       RRel Q cx β AEq (evalEntries call ρ k env t i x σ) (evalEntries call ρ k env' t' i y σ')
 def SoundSegs (Q : QRel) (cx : Cx) (D : List DName) (x y : List Seg) : Prop :=
   ∀ (N : NumOps) (call : CallFn N) (ρ : ExtOracle N) (k : Nat) (env env' : Env N) (acc : List UInt8)
-    (σ σ' : State N) (β : Inj N), POK Q cx call ρ k → SRel Q cx β σ σ' → EnvOK β D env env' →
+    (σ σ' : State N) (β : Inj N), POK Q cx call ρ k → SRel Q cx β σ σ' → EnvOK cx β D env env' →
       RRel Q cx β AEq (evalSegs call ρ k env x acc σ) (evalSegs call ρ k env' y acc σ')
 
 variable {Q : QRel} {cx : Cx} {D : List DName}
